@@ -510,7 +510,10 @@ impl DepthFirstSearch {
         }
 
         // String (quoted)
-        if (s.starts_with('"') && s.ends_with('"')) || (s.starts_with('\'') && s.ends_with('\'')) {
+        // (a lone quote character is not a quoted string: `&s[1..0]` would panic)
+        if s.len() >= 2
+            && ((s.starts_with('"') && s.ends_with('"')) || (s.starts_with('\'') && s.ends_with('\'')))
+        {
             return Value::String(s[1..s.len() - 1].to_string());
         }
 
@@ -1110,7 +1113,10 @@ impl BreadthFirstSearch {
         }
 
         // String (quoted)
-        if (s.starts_with('"') && s.ends_with('"')) || (s.starts_with('\'') && s.ends_with('\'')) {
+        // (a lone quote character is not a quoted string: `&s[1..0]` would panic)
+        if s.len() >= 2
+            && ((s.starts_with('"') && s.ends_with('"')) || (s.starts_with('\'') && s.ends_with('\'')))
+        {
             return Value::String(s[1..s.len() - 1].to_string());
         }
 
